@@ -6,6 +6,7 @@ import (
 	"fmt"
 	"net"
 	"sort"
+	"time"
 
 	"pgregory.net/rapid"
 
@@ -14,7 +15,7 @@ import (
 )
 
 type C11Op struct {
-	Kind    string // announce | badannounce | get
+	Kind    string // announce | badannounce | get | getburst | annburst
 	IP      int    // index into the IP pool
 	SrcPort int    // UDP source port
 	IH      int    // index into the infohash pool
@@ -23,6 +24,9 @@ type C11Op struct {
 	// WithPort: when Implied, also send a `port` key (which must then be ignored).
 	WithPort bool
 	Want     []string
+	// Burst: the members of a getburst / annburst; their datagrams are injected back to back and
+	// answered concurrently, then judged together
+	Burst []C11Op
 }
 
 type C11Sc struct {
@@ -45,7 +49,7 @@ func genC11(t *rapid.T) C11Sc {
 		seen[k] = true
 		sc.IPs = append(sc.IPs, s.IP)
 	}
-	nih := rapid.IntRange(1, 3).Draw(t, "nihs")
+	nih := rapid.IntRange(1, 6).Draw(t, "nihs")
 	for i := 0; i < nih; i++ {
 		ih := genBytesN(t, 20, "ih")
 		ih[0] = byte(i) // distinct
@@ -54,7 +58,22 @@ func genC11(t *rapid.T) C11Sc {
 	n := rapid.IntRange(2, deep(t, 30)).Draw(t, "nops")
 	for i := 0; i < n; i++ {
 		op := C11Op{IP: rapid.IntRange(0, nip-1).Draw(t, "op.ip"), SrcPort: genPort(t, "op.srcport"), IH: rapid.IntRange(0, nih-1).Draw(t, "op.ih")}
-		switch r := rapid.IntRange(0, 9).Draw(t, "op.kind"); {
+		switch r := rapid.IntRange(0, 12).Draw(t, "op.kind"); {
+		case r == 10:
+			// several requesters at once, for different infohashes and wants, each from its own endpoint
+			op.Kind = "getburst"
+			nb := 2 + uniformInt(t, 5, "op.nburst")
+			for j := 0; j < nb; j++ {
+				op.Burst = append(op.Burst, C11Op{Kind: "get", IP: uniformInt(t, nip, "b.ip"), SrcPort: 20000 + 7*j + uniformInt(t, 5, "b.port"), IH: uniformInt(t, nih, "b.ih"), Want: genWant(t, "b.want")})
+			}
+		case r >= 11:
+			// announces from distinct IPs for one infohash, all in flight at once
+			op.Kind = "annburst"
+			order := rapid.Permutation(seqInts(nip)).Draw(t, "b.ips")
+			nb := 1 + uniformInt(t, nip, "op.nburst")
+			for j := 0; j < nb; j++ {
+				op.Burst = append(op.Burst, C11Op{Kind: "announce", IP: order[j], SrcPort: genPort(t, "b.srcport"), IH: op.IH, Port: genPort(t, "b.port"), Implied: uniformInt(t, 3, "b.implied") == 0})
+			}
 		case r < 5:
 			op.Kind = "announce"
 			op.Port = genPort(t, "op.port")
@@ -70,6 +89,14 @@ func genC11(t *rapid.T) C11Sc {
 		sc.Ops = append(sc.Ops, op)
 	}
 	return sc
+}
+
+func seqInts(n int) []int {
+	r := make([]int, n)
+	for i := range r {
+		r[i] = i
+	}
+	return r
 }
 
 type endpoint struct {
@@ -109,38 +136,140 @@ func runC11(sc C11Sc, c *kit.Case) *kit.Violation {
 		return o, nil
 	}
 
+	// judgeGet checks one get_peers reply against the model
+	judgeGet := func(o OutMsg, from *net.UDPAddr, ihIdx int, want []string, oi int) *kit.Violation {
+		ip := from.IP
+		r, _ := o.R()
+		if tk, ok := r.Get("token"); !ok || tk.Kind != 's' {
+			return kit.Violatef("C11:no-token", "get_peers reply to %v (op %d) carries no token: %s", from, oi, o.Describe())
+		}
+		w4, w6, known := wants(want, ip)
+		got := map[endpoint]int{}
+		if vals, ok := r.Get("values"); ok {
+			if vals.Kind != 'l' {
+				return kit.Violatef("C11:values-malformed", "`values` is not a list: %s", o.Describe())
+			}
+			for _, e := range vals.L {
+				if e.Kind != 's' || (len(e.S) != 6 && len(e.S) != 18) {
+					return kit.Violatef("C11:values-malformed", "`values` entry %q is not a 6- or 18-byte string: %s", e.S, o.Describe())
+				}
+				if known && len(e.S) == 6 && !w4 {
+					return kit.Violatef("C11:bep32-family", "6-byte value sent to a requester (%v, want %v) that does not want IPv4: %s", from, want, o.Describe())
+				}
+				if known && len(e.S) == 18 && !w6 {
+					return kit.Violatef("C11:bep32-family", "18-byte value sent to a requester (%v, want %v) that does not want IPv6: %s", from, want, o.Describe())
+				}
+				eip := refmodel.Unmap(net.IP([]byte(e.S[:len(e.S)-2])))
+				ep := endpoint{string(eip), int(e.S[len(e.S)-2])<<8 | int(e.S[len(e.S)-1])}
+				got[ep]++
+			}
+		}
+		var modelEps []string
+		for _, ep := range model[ihIdx] {
+			modelEps = append(modelEps, ep.String())
+		}
+		sort.Strings(modelEps)
+		var gotKeys []endpoint
+		for ep := range got {
+			gotKeys = append(gotKeys, ep)
+		}
+		sort.Slice(gotKeys, func(i, j int) bool { return gotKeys[i].String() < gotKeys[j].String() })
+		for _, ep := range gotKeys {
+			if m, ok := model[ihIdx][ep.ip]; !ok || m != ep {
+				return kit.Violatef("C11:unannounced-endpoint", "get_peers for infohash #%d from %v returned %v, which is not a currently announced endpoint of it (announced: %v)", ihIdx, from, ep, modelEps)
+			}
+		}
+		fam4, fam6 := false, false
+		if known {
+			var keys []string
+			for k := range model[ihIdx] {
+				keys = append(keys, k)
+			}
+			sort.Strings(keys)
+			for _, k := range keys {
+				ep := model[ihIdx][k]
+				is4 := len(ep.ip) == 4
+				if is4 {
+					fam4 = true
+				} else {
+					fam6 = true
+				}
+				if (is4 && w4 || !is4 && w6) && got[ep] == 0 {
+					return kit.Violatef("C11:announced-endpoint-missing", "get_peers for infohash #%d from %v (want %v) does not return the announced endpoint %v (announced: %v; reply %s)", ihIdx, from, want, ep, modelEps, o.Describe())
+				}
+			}
+			if fam4 && fam6 && w4 != w6 {
+				mixedOneFamily = true
+				c.Label("mixed-store-one-family-want")
+			}
+		} else {
+			c.Label("want-unknown-only")
+		}
+		c.Label(fmt.Sprintf("get-values-%d", bucketCount(len(got))))
+		return nil
+	}
+	// announceMsg builds an announce_peer and returns the endpoint it announces
+	announceMsg := func(op C11Op, tok string, tt []byte) ([]byte, endpoint) {
+		kv := []BKV{{K: "info_hash", V: bs(sc.IHs[op.IH])}, {K: "token", V: bstr(tok)}}
+		if !op.Implied || op.WithPort {
+			kv = append(kv, BKV{K: "port", V: bint(int64(op.Port))})
+		}
+		if op.Implied {
+			kv = append(kv, BKV{K: "implied_port", V: bint(1)})
+		}
+		port := op.Port
+		if op.Implied {
+			port = op.SrcPort
+		}
+		return mkQuery(tt, "announce_peer", mkArgs(sender, kv...)), endpoint{string(refmodel.Unmap(net.IP(sc.IPs[op.IP]))), port}
+	}
+	record := func(ih int, ep endpoint) {
+		if model[ih] == nil {
+			model[ih] = map[string]endpoint{}
+		}
+		if old, had := model[ih][ep.ip]; had && old.port != ep.port {
+			reannounced = true
+			c.Label("re-announce-new-port")
+		}
+		model[ih][ep.ip] = ep
+		if len(model[ih]) >= 2 {
+			multiIP = true
+		}
+	}
+	token := func(ip net.IP, srcPort, ih int) (string, *kit.Violation) {
+		// a token is bound to the IP only: obtain it from another port
+		tokFrom := &net.UDPAddr{IP: ip, Port: 1 + (srcPort+11)%65535}
+		o, v := getPeers(tokFrom, ih, nil)
+		if v != nil || c.Inconclusive != "" {
+			return "", v
+		}
+		r, _ := o.R()
+		tk, ok := r.Get("token")
+		if !ok || tk.Kind != 's' {
+			return "", kit.Violatef("C11:no-token", "get_peers reply carries no token: %s", o.Describe())
+		}
+		return tk.S, nil
+	}
+	burstSeen := false
+
 	for oi, op := range sc.Ops {
 		ip := net.IP(sc.IPs[op.IP])
 		from := &net.UDPAddr{IP: ip, Port: op.SrcPort}
 		switch op.Kind {
 		case "announce", "badannounce":
-			// a token is bound to the IP only: obtain it from another port
-			tokFrom := &net.UDPAddr{IP: ip, Port: 1 + (op.SrcPort+11)%65535}
-			o, v := getPeers(tokFrom, op.IH, nil)
+			tok, v := token(ip, op.SrcPort, op.IH)
 			if v != nil {
 				return v
 			}
 			if c.Inconclusive != "" {
 				return nil
 			}
-			r, _ := o.R()
-			tk, ok := r.Get("token")
-			if !ok || tk.Kind != 's' {
-				return kit.Violatef("C11:no-token", "get_peers reply carries no token: %s", o.Describe())
-			}
-			tok := tk.S
 			if op.Kind == "badannounce" {
 				tok = tok + "x"
 			}
-			kv := []BKV{{K: "info_hash", V: bs(sc.IHs[op.IH])}, {K: "token", V: bstr(tok)}}
-			if !op.Implied || op.WithPort {
-				kv = append(kv, BKV{K: "port", V: bint(int64(op.Port))})
-			}
-			if op.Implied {
-				kv = append(kv, BKV{K: "implied_port", V: bint(1)})
-			}
 			tt := nextT("a")
-			outs, okb := sv.exchange(c, from, mkQuery(tt, "announce_peer", mkArgs(sender, kv...)), op.Kind == "announce")
+			msg, ep := announceMsg(op, tok, tt)
+			outs, okb := sv.exchange(c, from, msg, op.Kind == "announce")
 			if !okb {
 				return nil
 			}
@@ -151,22 +280,7 @@ func runC11(sc C11Sc, c *kit.Case) *kit.Violation {
 			if o, found := replyTo(outs, from, tt); !found || o.Y != "r" {
 				return kit.Violatef("C11:announce-not-accepted", "announce_peer from %v with a token just issued to its IP was not answered with a response (%d datagrams)", from, len(outs))
 			}
-			port := op.Port
-			if op.Implied {
-				port = op.SrcPort
-			}
-			key := string(refmodel.Unmap(ip))
-			if model[op.IH] == nil {
-				model[op.IH] = map[string]endpoint{}
-			}
-			if old, had := model[op.IH][key]; had && old.port != port {
-				reannounced = true
-				c.Label("re-announce-new-port")
-			}
-			model[op.IH][key] = endpoint{key, port}
-			if len(model[op.IH]) >= 2 {
-				multiIP = true
-			}
+			record(op.IH, ep)
 			if op.Implied {
 				c.Label("implied-port")
 			}
@@ -179,74 +293,136 @@ func runC11(sc C11Sc, c *kit.Case) *kit.Violation {
 			if c.Inconclusive != "" {
 				return nil
 			}
-			r, _ := o.R()
-			if tk, ok := r.Get("token"); !ok || tk.Kind != 's' {
-				return kit.Violatef("C11:no-token", "get_peers reply to %v (op %d) carries no token: %s", from, oi, o.Describe())
+			if v := judgeGet(o, from, op.IH, op.Want, oi); v != nil {
+				return v
 			}
-			w4, w6, known := wants(op.Want, ip)
-			got := map[endpoint]int{}
-			if vals, ok := r.Get("values"); ok {
-				if vals.Kind != 'l' {
-					return kit.Violatef("C11:values-malformed", "`values` is not a list: %s", o.Describe())
+		case "annburst":
+			type pending struct {
+				from *net.UDPAddr
+				tt   []byte
+				ep   endpoint
+			}
+			var ps []pending
+			var msgs [][]byte
+			for _, b := range op.Burst {
+				bip := net.IP(sc.IPs[b.IP])
+				tok, v := token(bip, b.SrcPort, b.IH)
+				if v != nil {
+					return v
 				}
-				for _, e := range vals.L {
-					if e.Kind != 's' || (len(e.S) != 6 && len(e.S) != 18) {
-						return kit.Violatef("C11:values-malformed", "`values` entry %q is not a 6- or 18-byte string: %s", e.S, o.Describe())
-					}
-					if known && len(e.S) == 6 && !w4 {
-						return kit.Violatef("C11:bep32-family", "6-byte value sent to a requester (%v, want %v) that does not want IPv4: %s", from, op.Want, o.Describe())
-					}
-					if known && len(e.S) == 18 && !w6 {
-						return kit.Violatef("C11:bep32-family", "18-byte value sent to a requester (%v, want %v) that does not want IPv6: %s", from, op.Want, o.Describe())
-					}
-					eip := refmodel.Unmap(net.IP([]byte(e.S[:len(e.S)-2])))
-					ep := endpoint{string(eip), int(e.S[len(e.S)-2])<<8 | int(e.S[len(e.S)-1])}
-					got[ep]++
+				if c.Inconclusive != "" {
+					return nil
 				}
+				tt := nextT("ab")
+				msg, ep := announceMsg(b, tok, tt)
+				ps = append(ps, pending{&net.UDPAddr{IP: bip, Port: b.SrcPort}, tt, ep})
+				msgs = append(msgs, msg)
 			}
-			var modelEps []string
-			for _, ep := range model[op.IH] {
-				modelEps = append(modelEps, ep.String())
+			mark := sv.C.NumOut()
+			for i, p := range ps {
+				sv.C.Inject(p.from, msgs[i])
 			}
-			sort.Strings(modelEps)
-			var gotKeys []endpoint
-			for ep := range got {
-				gotKeys = append(gotKeys, ep)
+			if !sv.barrier(c) {
+				return nil
 			}
-			sort.Slice(gotKeys, func(i, j int) bool { return gotKeys[i].String() < gotKeys[j].String() })
-			for _, ep := range gotKeys {
-				if m, ok := model[op.IH][ep.ip]; !ok || m != ep {
-					return kit.Violatef("C11:unannounced-endpoint", "get_peers for infohash #%d returned %v, which is not a currently announced endpoint of it (announced: %v)", op.IH, ep, modelEps)
-				}
-			}
-			fam4, fam6 := false, false
-			if known {
-				var keys []string
-				for k := range model[op.IH] {
-					keys = append(keys, k)
-				}
-				sort.Strings(keys)
-				for _, k := range keys {
-					ep := model[op.IH][k]
-					is4 := len(ep.ip) == 4
-					if is4 {
-						fam4 = true
+			answered := func() (int, string) {
+				outs := outsFrom(sv.C, mark)
+				n := 0
+				missing := ""
+				for _, p := range ps {
+					if o, found := replyTo(outs, p.from, p.tt); found && o.Y == "r" {
+						n++
 					} else {
-						fam6 = true
-					}
-					if (is4 && w4 || !is4 && w6) && got[ep] == 0 {
-						return kit.Violatef("C11:announced-endpoint-missing", "get_peers for infohash #%d from %v (want %v) does not return the announced endpoint %v (announced: %v; reply %s)", op.IH, from, op.Want, ep, modelEps, o.Describe())
+						missing = p.from.String()
 					}
 				}
-				if fam4 && fam6 && w4 != w6 {
-					mixedOneFamily = true
-					c.Label("mixed-store-one-family-want")
-				}
-			} else {
-				c.Label("want-unknown-only")
+				return n, missing
 			}
-			c.Label(fmt.Sprintf("get-values-%d", bucketCount(len(got))))
+			if n, _ := answered(); n != len(ps) {
+				c.Label("grace-wait")
+				waitFor(2*time.Second, func() bool { n, _ := answered(); return n == len(ps) })
+			}
+			if n, missing := answered(); n != len(ps) {
+				return kit.Violatef("C11:announce-not-accepted", "of %d announce_peer queries in flight at once for infohash #%d, each with a token just issued to its IP, only %d were answered with a response (not %s)", len(ps), op.IH, n, missing)
+			}
+			_, fresh := model[op.IH]
+			for _, p := range ps {
+				record(op.IH, p.ep)
+			}
+			if len(ps) >= 2 {
+				burstSeen = true
+				c.Label(fmt.Sprintf("announce-burst-%d-first-for-infohash-%v", len(ps), !fresh))
+			}
+			// and they must all be served at once
+			o, v := getPeers(&net.UDPAddr{IP: net.IP(sc.IPs[op.Burst[0].IP]), Port: 30000 + oi}, op.IH, []string{"n4", "n6"})
+			if v != nil {
+				return v
+			}
+			if c.Inconclusive != "" {
+				return nil
+			}
+			if v := judgeGet(o, &net.UDPAddr{IP: net.IP(sc.IPs[op.Burst[0].IP]), Port: 30000 + oi}, op.IH, []string{"n4", "n6"}, oi); v != nil {
+				return v
+			}
+		case "getburst":
+			type pending struct {
+				from *net.UDPAddr
+				tt   []byte
+				b    C11Op
+			}
+			var ps []pending
+			mark := sv.C.NumOut()
+			for _, b := range op.Burst {
+				p := pending{&net.UDPAddr{IP: net.IP(sc.IPs[b.IP]), Port: b.SrcPort}, nextT("gb"), b}
+				kv := []BKV{{K: "info_hash", V: bs(sc.IHs[b.IH])}}
+				if len(b.Want) > 0 {
+					kv = append(kv, wantList(b.Want))
+				}
+				ps = append(ps, p)
+				sv.C.Inject(p.from, mkQuery(p.tt, "get_peers", mkArgs(sender, kv...)))
+			}
+			if !sv.barrier(c) {
+				return nil
+			}
+			all := func() bool {
+				outs := outsFrom(sv.C, mark)
+				for _, p := range ps {
+					if _, found := replyTo(outs, p.from, p.tt); !found {
+						return false
+					}
+				}
+				return true
+			}
+			if !all() {
+				c.Label("grace-wait")
+				waitFor(2*time.Second, all)
+			}
+			outs := outsFrom(sv.C, mark)
+			if len(outs) > len(ps) {
+				return kit.Violatef("C11:get-peers-not-answered", "%d get_peers in flight at once caused %d datagrams", len(ps), len(outs))
+			}
+			distinctIH := map[int]bool{}
+			for _, p := range ps {
+				o, found := replyTo(outs, p.from, p.tt)
+				if !found || o.Y != "r" {
+					return kit.Violatef("C11:get-peers-not-answered", "get_peers from %v (one of %d in flight at once) was not answered with a response", p.from, len(ps))
+				}
+				if v := judgeGet(o, p.from, p.b.IH, p.b.Want, oi); v != nil {
+					v.Msg = fmt.Sprintf("(one of %d get_peers in flight at once) ", len(ps)) + v.Msg
+					return v
+				}
+				if len(model[p.b.IH]) > 0 {
+					distinctIH[p.b.IH] = true
+				}
+			}
+			if len(distinctIH) >= 2 {
+				burstSeen = true
+				c.Label("get-burst-over-2-populated-infohashes")
+			}
 		}
+	}
+	if burstSeen {
+		c.NonTrivial()
 	}
 	if (reannounced && multiIP) || mixedOneFamily {
 		c.NonTrivial()
